@@ -13,6 +13,7 @@ CONSTANTS KeyLen,      \* keys are all bit strings of length <= KeyLen
           Vals,        \* values
           Acts,        \* alphabet: set of action names
           MaxCount,    \* state constraint: at most this many entries
+          MaxNodes,    \* state constraint: at most this many tree nodes (root included)
           EmitActs,    \* print one JSON row per transition whose action is in this set
           EntryDepth,  \* maximal number of calls on one entry handle
           ViewAcct     \* TRUE: states differing in arena length / free-list size are distinct
@@ -88,7 +89,7 @@ Next == \E e \in AllEvents :
 Spec == Init /\ [][Next]_vars
 
 View == IF ViewAcct THEN <<Tree(m), Len(m.a), Len(m.f), m.c, canon, drift>> ELSE <<Tree(m), m.c, canon, drift>>
-Bound == Cardinality(abs) <= MaxCount
+Bound == Cardinality(abs) <= MaxCount /\ Cardinality(Reach(m)) <= MaxNodes
 
 (* ---- state invariants ---------------------------------------------------- *)
 InvWF        == WF(m) /\ IsTree(m)                           \* C15
